@@ -42,6 +42,7 @@ import (
 //	    path = one byte per nibble ; tbl = <keccak>~<dump>;... one entry per node of acctproof++mainproof in order
 //	    accts = <leaf value>~<storage root>~<code hash>;...  (results of types.FullAccount on every value in the account proof; others fail)
 //	    v = ok | err | panic:<msg> of StateValidator.ValidateContent ; p = ok:<stored bytes> | err | panic:<msg> of Storage.Put on a fresh in-memory store
+//	    k = keccak of the stored payload (stored bytes minus the 4-byte SSZ offset), - if nothing was stored
 //	raw <key> <content> | v:<r> p:<r>      content key / content that the SSZ layer rejects (never reaches the trie code)
 //	nib <bytes> | ok <nibbles> / err       Nibbles.Deserialize
 //	hist <n> <step>@... | <obs>@...@S:<store>   a sequence of items on ONE validator and ONE storage (see c13hist)
@@ -190,11 +191,11 @@ func c13wire(c *Ctx, tag string, oracle []byte, key, content []byte) {
 }
 
 func c13emit(c *Ctx, k *c13case, key, content []byte) {
-	v, p := c13run(k.blockHash, k.oracle, key, content)
+	v, p, kk := c13run(k.blockHash, k.oracle, key, content)
 	c.Count("val_" + k.kind)
 	c.Count("val_v_" + strings.SplitN(v, ":", 2)[0])
 	c.Count("tag_" + strings.SplitN(k.tag, "/", 2)[0])
-	c.Emit("val %s | v:%s p:%s", strings.Join(c13fields(k), " "), v, p)
+	c.Emit("val %s | v:%s p:%s k:%s", strings.Join(c13fields(k), " "), v, p, kk)
 }
 
 // c13fields renders the 13 fields of a case (see the header comment): the decoded pieces plus, for every proof node, its
@@ -276,7 +277,7 @@ func c13hist(c *Ctx, steps []*c13case) {
 		}
 		id := sha256.Sum256(key)
 		var err error
-		v, p := "ok", "-"
+		v, p, kk := "ok", "-", "-"
 		if pn, msg := guard(func() { err = val.ValidateContent(key, content) }); pn {
 			v = "panic:" + msg
 		} else if err != nil {
@@ -289,6 +290,7 @@ func c13hist(c *Ctx, steps []*c13case) {
 				p = "err"
 			} else if got, ok := mock.(*storage.MockStorage).Db[string(id[:])]; ok {
 				p = "ok:" + hx(got)
+				kk = c13storedHash(got)
 			} else {
 				p = "ok:NOTHING-UNDER-CONTENT-ID"
 			}
@@ -296,7 +298,7 @@ func c13hist(c *Ctx, steps []*c13case) {
 		c.Count("hist_step_" + strings.SplitN(k.tag, "_", 2)[0])
 		c.Count("hist_v_" + strings.SplitN(v, ":", 2)[0])
 		fs = append(fs, strings.Join(append(c13fields(k), hx(id[:])), "^"))
-		obs = append(obs, "v:"+v+",p:"+p)
+		obs = append(obs, "v:"+v+",p:"+p+",k:"+kk)
 	}
 	if len(fs) == 0 {
 		return
@@ -313,6 +315,35 @@ func c13hist(c *Ctx, steps []*c13case) {
 	c.Count("hist")
 	c.Count(fmt.Sprintf("hist_len_%d", len(fs)))
 	c.Emit("hist %d %s | %s@S:%s", len(fs), strings.Join(fs, "@"), strings.Join(obs, "@"), fin)
+}
+
+type c13wrongCode struct {
+	tag  string
+	code []byte
+}
+
+// codes that do not hash to the key of a contract with code `code`
+func c13wrongCodes(r *Rng, code []byte, w *c13world) []c13wrongCode {
+	var out []c13wrongCode
+	add := func(tag string, b []byte) {
+		if !bytes.Equal(b, code) {
+			out = append(out, c13wrongCode{tag, b})
+		}
+	}
+	add("code-empty", []byte{})
+	add("code-1byte", r.Bytes(1))
+	add("code-1byte-zero", []byte{0})
+	if len(code) > 0 {
+		add("code-truncated", code[:len(code)-1])
+		add("code-first-byte", code[:1])
+		add("code-bitflip", flipBit(r, code))
+	}
+	add("code-extended", append(append([]byte{}, code...), 0))
+	add("code-random", r.Bytes(1+r.Intn(64)))
+	for _, o := range w.contracts {
+		add("code-of-other-contract", o.code)
+	}
+	return out
 }
 
 // honest items of a world, as candidates for history steps
@@ -400,6 +431,14 @@ func c13histories(c *Ctx, r *Rng, n int) {
 			default:
 				k = c13mutate(r, pick(x), nil)
 			}
+			if k.kind == "cbc" && k.tag == "honest" && r.Intn(3) == 0 {
+				wc := c13wrongCodes(r, k.code, ws[x])
+				j := r.Intn(len(wc))
+				if r.Bool() {
+					j = r.Intn(3) % len(wc) // empty / 1-byte most of the time
+				}
+				k.tag, k.code = wc[j].tag, wc[j].code
+			}
 			steps = append(steps, k)
 		}
 		c13hist(c, steps)
@@ -413,7 +452,8 @@ func unhxe(s string) []byte {
 	return unhx(s)
 }
 
-func c13run(blockHash, oracleRoot, key, content []byte) (v, p string) {
+func c13run(blockHash, oracleRoot, key, content []byte) (v, p, kk string) {
+	kk = "-"
 	o := &c13Oracle{roots: map[string][]byte{}}
 	if oracleRoot != nil {
 		o.roots[string(blockHash)] = oracleRoot
@@ -440,6 +480,7 @@ func c13run(blockHash, oracleRoot, key, content []byte) (v, p string) {
 			p = fmt.Sprintf("ok:MORE-THAN-ONE-ENTRY-%d", len(db))
 		} else if got, ok := db[string(id[:])]; ok {
 			p = "ok:" + hx(got)
+			kk = c13storedHash(got)
 		} else {
 			p = "ok:NOTHING-UNDER-CONTENT-ID"
 		}
@@ -447,13 +488,22 @@ func c13run(blockHash, oracleRoot, key, content []byte) (v, p string) {
 	return
 }
 
+// keccak of the payload of a stored value (SSZ container with one byte list: 4-byte offset, then the node / the code):
+// what the stored bytes hash to is judged against the key's hash by the monitors
+func c13storedHash(stored []byte) string {
+	if len(stored) < 4 {
+		return "short"
+	}
+	return hx(crypto.Keccak256(stored[4:]))
+}
+
 func c13raw(c *Ctx, key, content []byte) {
 	if len(key) == 0 {
 		return // contentKey[0] on an empty key belongs to C01
 	}
-	v, p := c13run(make([]byte, 32), nil, key, content)
+	v, p, kk := c13run(make([]byte, 32), nil, key, content)
 	c.Count("raw")
-	c.Emit("raw %s %s | v:%s p:%s", hx(key), hx(content), v, p)
+	c.Emit("raw %s %s | v:%s p:%s k:%s", hx(key), hx(content), v, p, kk)
 }
 
 func c13trv(c *Ctx, node, path []byte) {
@@ -1284,6 +1334,11 @@ func c13corpus(r *Rng) []*c13case {
 		base := &c13case{tag: "corpus-cbc", kind: "cbc", oracle: keccak(rootn), blockHash: bytes.Repeat([]byte{0xcc}, 32), addrHash: addr,
 			keyHash: keccak(code), code: code, acctProof: [][]byte{rootn, aleaf}}
 		out = append(out, base)
+		for _, wc := range []c13wrongCode{{"corpus-cbc-code-empty", []byte{}}, {"corpus-cbc-code-1byte", []byte{0x60}}, {"corpus-cbc-code-wrong", []byte{0x60, 0x01}}} {
+			bw := base.clone()
+			bw.tag, bw.code = wc.tag, wc.code
+			out = append(out, bw)
+		}
 		b2 := base.clone()
 		b2.tag, b2.acctProof = "corpus-cbc-missing-leaf", [][]byte{rootn}
 		out = append(out, b2)
@@ -1466,6 +1521,13 @@ func runC13(c *Ctx) {
 	c.Stats["vectors"] = len(vecs)
 	for _, k := range vecs {
 		c13exec(c, k)
+		if k.kind == "cbc" {
+			for _, wc := range []c13wrongCode{{"vector-code-empty", []byte{}}, {"vector-code-1byte", k.code[:1]}, {"vector-code-truncated", k.code[:len(k.code)-1]}} {
+				kw := k.clone()
+				kw.tag, kw.code = wc.tag, wc.code
+				c13exec(c, kw)
+			}
+		}
 		for i := 0; i < 6; i++ {
 			c13exec(c, c13mutate(r, k, k.mainProof))
 		}
@@ -1597,6 +1659,12 @@ func runC13(c *Ctx) {
 			kb := &c13case{tag: "honest", kind: "cbc", oracle: w.acct.root, blockHash: w.blockHash, addrHash: ct.addrHash, keyHash: keccak(ct.code),
 				code: ct.code, acctProof: ap}
 			emit(kb, extraA, 8)
+			// empty / 1-byte / wrong code under the GENUINE bytecode key (honest account proof, key = the account's code hash)
+			for _, wc := range c13wrongCodes(r, ct.code, w) {
+				kw := kb.clone()
+				kw.tag, kw.code = wc.tag, wc.code
+				c13exec(c, kw)
+			}
 			var extraS [][]byte
 			for _, p := range ct.storage.paths {
 				extraS = append(extraS, ct.storage.nodes[p])
